@@ -209,6 +209,7 @@ type Env struct {
 	fresh    int
 	trusted  map[string]bool // names of axioms that are assumptions
 	mapInfo  map[string]mapInfo
+	heapTypes map[string]heapType
 }
 
 func NewEnv() *Env {
